@@ -1,0 +1,7 @@
+//go:build !verif
+
+package stdlib
+
+// verifYield is a scheduling point for the verification harness; without the
+// verif build tag it is an empty, inlinable method.
+func (ctx *context) verifYield(point string) {}
